@@ -87,8 +87,15 @@ pub fn gen_container(rng: &mut Rng, max_payload: usize) -> ContainerSpec {
         2 => 40,
         _ => rng.urange(1, 12),
     };
-    let bodies = (0..nrec)
-        .map(|_| {
+    let mut bodies: Vec<(Body, bool)> = Vec::with_capacity(nrec);
+    for _ in 0..nrec {
+        // a record may repeat its predecessor byte for byte: still a record of its own
+        if !bodies.is_empty() && rng.chance(1, 8) {
+            let prev = bodies[bodies.len() - 1].clone();
+            bodies.push(prev);
+            continue;
+        }
+        bodies.push({
             let body = if rng.chance(1, 8) {
                 let mut raw = b"BZ".to_vec();
                 match rng.below(4) {
@@ -114,8 +121,8 @@ pub fn gen_container(rng: &mut Rng, max_payload: usize) -> ContainerSpec {
                 Body::Plain(raw)
             };
             (body, rng.chance(1, 2))
-        })
-        .collect();
+        });
+    }
     ContainerSpec { header, bodies }
 }
 
